@@ -182,8 +182,8 @@ def main():
             rec = camp.add(f'harmonics#{i}', harmonic_scenario(r), coq=False)
         else:
             sc = T.gen_scenario(r, opt_kinds=('sgd', 'script', 'sgd'), cb_actions=('stop', 'set_theta', 'set_conds', 'set_opt'),
-                                between_actions=('set_theta', 'set_conds'), lids=(0, 1), sol_ops=True, max_epochs=(0, 4), nmetrics=(0, 1),
-                                n_fits=(1, 4))
+                                between_actions=('set_theta', 'set_conds', 'rebind_net', 'rebind_cond') if i % 2 else ('set_theta', 'set_conds'),
+                                lids=(0, 1), sol_ops=True, max_epochs=(0, 4), nmetrics=(0, 1), n_fits=(1, 4))
             rec = camp.add(f'exact#{i}', sc, exact=True)
         if rec:
             n_eval += sum(1 for o in rec['outs'] if o['kind'] in ('eval', 'residuals'))
